@@ -131,6 +131,7 @@ func runMirror(events []string, props []string, seed int, args map[string]string
 		s.step = i
 		gFrom, sFrom := len(s.gLog), len(s.sLog)
 		a := s.apply(ev)
+		crashedHere := s.st.f.frozen
 		if s.st.f.frozen {
 			// The process stopped in the middle of this event: nothing further happens until it is restarted.
 			s.stop()
@@ -158,6 +159,9 @@ func runMirror(events []string, props []string, seed int, args map[string]string
 		}
 		s.drain(false)
 		after := s.snapshot()
+		if crashedHere {
+			o.afterRedelivery(before, after)
+		}
 		o.afterStep(before, after, a)
 		o.checkOutputs(gFrom, sFrom)
 		s.noteRoundEnd(before, after)
